@@ -62,6 +62,7 @@ Section F.
         destruct ((tok =? 92) || (tok =? 39)).
         * destruct value as [|[] ?]; try exact I; apply IH2.
         * destruct (tok =? 34); [|apply IH2].
+          destruct (only_at value && Nat.leb (length (args e)) 1); [apply IH2|].
           match goal with |- P _ (match expand users f ?e ?w ?m with _ => _ end) => pose proof (IH1 e w m) as H1; destruct (expand users f e w m) as [[e1 w1]|[e1 x1]| |] end;
             cbn [P] in *; try exact I; try assumption.
           eapply P_trans; [exact H1|apply IH2].
